@@ -138,6 +138,25 @@ func (interp *Interpreter) CompileAST(n ast.Node) (*Program, error) {
 
 // Execute executes compiled Go code.
 func (interp *Interpreter) Execute(p *Program) (res reflect.Value, err error) {
+	return interp.execute(p, interp.runid())
+}
+
+// execute executes p in the run id.
+func (interp *Interpreter) execute(p *Program, id uint64) (res reflect.Value, err error) {
+	interp.startRun(id)
+	return interp.executeProg(p)
+}
+
+// startRun marks the global frame as belonging to a new evaluation, in the run id.
+func (interp *Interpreter) startRun(id uint64) {
+	interp.frame.setrunid(id)
+	interp.frame.mutex.Lock()
+	interp.frame.run = &runState{}
+	interp.frame.mutex.Unlock()
+}
+
+// executeProg executes p in the evaluation started by startRun.
+func (interp *Interpreter) executeProg(p *Program) (res reflect.Value, err error) {
 	defer func() {
 		r := recover()
 		if r != nil {
@@ -153,9 +172,7 @@ func (interp *Interpreter) Execute(p *Program) (res reflect.Value, err error) {
 	}
 
 	// Init interpreter execution memory frame.
-	interp.frame.setrunid(interp.runid())
 	interp.frame.mutex.Lock()
-	interp.frame.run = &runState{}
 	interp.resizeFrame()
 	interp.frame.mutex.Unlock()
 
@@ -191,11 +208,12 @@ func (interp *Interpreter) ExecuteWithContext(ctx context.Context, p *Program) (
 	interp.done = make(chan struct{})
 	interp.cancelChan = !interp.opt.fastChan
 	interp.mutex.Unlock()
+	id := interp.runid()
 
 	done := make(chan struct{})
 	go func() {
 		defer close(done)
-		res, err = interp.Execute(p)
+		res, err = interp.execute(p, id)
 	}()
 
 	select {
